@@ -339,7 +339,7 @@ func (x *Exec) storeField(st *State, ptr *Term, structT types.Type, field string
 // pointer to non-struct cell
 func (x *Exec) loadCell(st *State, ptr *Term, t types.Type) *Value {
 	v := &Value{T: t, L: map[string]*Term{}}
-	tn := "cell<" + types.TypeString(t, nil) + ">"
+	tn := "cell." + types.TypeString(t, nil)
 	for _, l := range x.leavesOf(t) {
 		v.L[l.path] = x.b.Select(x.heapArr(st, join(tn, l.path), l.sort), ptr)
 	}
@@ -348,7 +348,7 @@ func (x *Exec) loadCell(st *State, ptr *Term, t types.Type) *Value {
 }
 
 func (x *Exec) storeCell(st *State, ptr *Term, t types.Type, val *Value) {
-	tn := "cell<" + types.TypeString(t, nil) + ">"
+	tn := "cell." + types.TypeString(t, nil)
 	for p, tm := range val.L {
 		key := join(tn, p)
 		st.heap[key] = x.b.Store(x.heapArr(st, key, tm.Sort), ptr, tm)
@@ -1276,7 +1276,7 @@ func (x *Exec) assignedIn(n ast.Node) *frameInfo {
 					if kindOf(p.Elem()) == kStruct {
 						fi.heapKeys[structName(p.Elem())] = true
 					} else {
-						fi.heapKeys["cell<"+types.TypeString(p.Elem(), nil)+">"] = true
+						fi.heapKeys["cell."+types.TypeString(p.Elem(), nil)] = true
 					}
 					return
 				}
